@@ -154,6 +154,10 @@ def cases_b(tier):
     for scheme in BAD_SCHEMES:
         for tail in ("h/p", "h", "h/p?q=1"):
             yield ("bad", scheme, tail, None, None)
+            if scheme != "unix+https":
+                # the scheme is rejected whoever provides the transport (unix+https is only refused for lack of a built-in
+                # transport: with a caller-supplied one the library accepts it, and the property does not say otherwise)
+                yield ("bad", scheme, tail, "transport-given", None)
 
 
 def expected_target(scheme, path, q):
@@ -170,7 +174,10 @@ def check_b(case):
     if mode == "bad":
         url = "%s://%s" % (scheme, auth) if scheme else "//" + auth
         try:
-            jsonrpclib.ServerProxy(url)
+            if path == "transport-given":
+                jsonrpclib.ServerProxy(url, transport=RecTransport())
+            else:
+                jsonrpclib.ServerProxy(url)
         except IOError:
             return out
         except Exception as ex:
@@ -224,7 +231,8 @@ def check_b(case):
 # ---------------------------------------------------------------------------
 # (c) parser seam: every composition
 
-SHORT = ["é", "€", "\U0001F600", "aé", "é€", "{\"é\":\"€\"}", "\U0001F600\U0001F600", "[\"\U0001F600é\"]", "aé€b", "\"\u00e9\u20ac\U0001F600\"", "ab", ""]
+SHORT = ["é", "€", "\U0001F600", "aé", "é€", "{\"é\":\"€\"}", "\U0001F600\U0001F600", "[\"\U0001F600é\"]", "aé€b", "\"\u00e9\u20ac\U0001F600\"", "ab", "",
+         "\ufeff", "\ufeff[1]", "\ufeff\"é\"", "\"\x00\"", " \ufeff"]
 
 
 LONGER = ["{\"é\":\"€\U0001F600\"}", "[\"\U0001F600é€\",1]", "\"ééééééé\""]
@@ -424,7 +432,9 @@ class CapServer(SimpleJSONRPCDispatcher):
         return SimpleJSONRPCDispatcher._marshaled_dispatch(self, data, dispatch_method, path)
 
 
-SERVER_BODIES = ['{"jsonrpc":"2.0","method":"é","id":1}', '"é€\U0001F600"', '["€"]', '{"é":1}', "\U0001F600", "é"]
+SERVER_BODIES = ['{"jsonrpc":"2.0","method":"é","id":1}', '"é€\U0001F600"', '["€"]', '{"é":1}', "\U0001F600", "é",
+                 # code points a lenient decoder drops or rewrites: a leading byte order mark, NUL, U+2028, a BOM in the middle
+                 '\ufeff{"é":1}', '\ufeff', '\ufeff[1]', '"\x00"', '["\u2028\ufeff"]', ' \ufeff']
 
 
 def cases_e(tier):
